@@ -28,6 +28,14 @@ def build(tier="quick"):
         fn("let a: Box<A3> = Box::new(arr![1, 2, 3]);\n    let b: Box<GenericArray<u8, U4>> = Box::new(GenericArray::default());\n    let c = a.zip(b, |x, y| x + y); //~"), LEN, "F1")
     add("zip_stack_with_box", fn("let a: A3 = arr![1, 2, 3];\n    let b: A3 = arr![1, 2, 3];\n    let c = a.zip(b, |x, y| x + y);"),
         fn("let a: A3 = arr![1, 2, 3];\n    let b: Box<A3> = Box::new(arr![1, 2, 3]);\n    let c = a.zip(b, |x, y| x + y); //~"), LEN, "F1")
+    # ---- the doc-hidden drivers behind zip, called directly (public API all the same): lengths must agree, and are inferred through the bound
+    for nm, recv, arg in (("own_own", "b", "a"), ("ref_own", "&b", "a"), ("own_ref", "b", "&a")):
+        pre = "let a: A3 = arr![1, 2, 3];\n    let b: GenericArray<u8, %s> = GenericArray::default();\n"
+        call = "    let c = (%s).inverted_zip2(%s, |x, y| { let _ = (&x, &y); 0u8 });" % (recv, arg)
+        add("inverted_zip2_" + nm, fn(pre % "U3" + call), fn(pre % "U4" + call + " //~"), LEN)
+    pre = "let a: A3 = arr![1, 2, 3];\n    let b: GenericArray<u8, %s> = GenericArray::default();\n"
+    add("inverted_zip_own", fn(pre % "U3" + "    let c = b.inverted_zip(a, |x, y| { let _ = (&x, &y); 0u8 });"), fn(pre % "U4" + "    let c = b.inverted_zip(a, |x, y| { let _ = (&x, &y); 0u8 }); //~"), LEN)
+    add("inverted_zip_ref", fn(pre % "U3" + "    let c = (&b).inverted_zip(a, |x, y| { let _ = (&x, &y); 0u8 });"), fn(pre % "U4" + "    let c = (&b).inverted_zip(a, |x, y| { let _ = (&x, &y); 0u8 }); //~"), LEN)
     # ---- comparisons ---------------------------------------------------------------------------
     for nm, ex in (("eq", "a == b"), ("cmp", "a.cmp(&b) == core::cmp::Ordering::Less"), ("partial_cmp", "a.partial_cmp(&b).is_some()"), ("ne", "a != b")):
         pre = "let a: A3 = arr![1, 2, 3];\n    let b: GenericArray<u8, %s> = GenericArray::default();\n"
